@@ -142,7 +142,7 @@ DrainBarrierWaiter(s, nextOwner, enqOwned) ==
 
 (* ---- _dispatch_lane_drain_non_barriers: final rmw ---- *)
 DrainNonBarriersExit(s, ownedW, dcPresent, dcBarrier, self) ==
-    LET o == [ib |-> FALSE, w |-> ownedW, enq |-> FALSE, res |-> (dcPresent /\ dcBarrier /\ W > 1)]
+    LET o == [ib |-> FALSE, w |-> ownedW, enq |-> FALSE, res |-> (dcPresent /\ dcBarrier /\ W > 1 /\ ~s.pb)]
         a == [ClearUnlock(Sub(s, o)) EXCEPT !.dirty = FALSE] IN
     IF dcPresent THEN [ok |-> TRUE, s |-> NbcTryLock(s, [a EXCEPT !.dirty = TRUE], self), old |-> Sub(s, o)]
     ELSE IF s.dirty THEN [ok |-> FALSE, s |-> [s EXCEPT !.dirty = FALSE], old |-> s]
